@@ -25,25 +25,47 @@ func TestMain(m *testing.M) { vh.Main(m) }
 type verdict struct{ sig, msg string }
 
 type cmdCase struct {
-	Masters  int      `json:"masters"`
-	Replicas int      `json:"replicas"`
-	Strategy int      `json:"strategy"` // 0 MASTER, 1 REPLICA, 2 BOTH
+	Masters  int        `json:"masters"`
+	Replicas int        `json:"replicas"`
+	Strategy int        `json:"strategy"` // 0 MASTER, 1 REPLICA, 2 BOTH
 	Cmds     [][]string `json:"cmds"`
+	// replica set changes while the proxy runs: before command At the Replica-th replica becomes a replica of the To-th master
+	// (CLUSTER REPLICATE); the commands continue after the proxy has refreshed its table twice
+	Topo []topoOp `json:"topo,omitempty"`
+}
+
+type topoOp struct {
+	At      int `json:"at"`
+	Replica int `json:"replica"`
+	To      int `json:"to"`
 }
 
 type env struct {
-	w  *sim.World
-	px *sim.Proxy
-	cl *sim.Client
+	w       *sim.World
+	px      *sim.Proxy
+	cl      *sim.Client
+	restore func()
 }
 
 func newEnv(masters, replicas, strategy int) (*env, *verdict) {
+	return newEnvT(masters, replicas, strategy, true)
+}
+
+func newEnvT(masters, replicas, strategy int, stable bool) (e *env, v *verdict) {
 	w, err := sim.NewWorld(masters, replicas)
 	if err != nil {
 		return nil, nil
 	}
 	w.AssignEven(w.Masters())
-	defer sim.ProductionRefreshRate()() // stable layout: see the function
+	restore := func() {}
+	if stable {
+		restore = sim.ProductionRefreshRate() // stable layout: see the function
+	}
+	defer func() {
+		if e == nil {
+			restore()
+		}
+	}()
 	px, err := sim.StartProxy(sim.ProxyOpts{Seeds: w.AllAddrs(), ReadStrategy: redispb.ReadStrategy(strategy)})
 	if err != nil {
 		w.Close()
@@ -60,10 +82,11 @@ func newEnv(masters, replicas, strategy int) (*env, *verdict) {
 		w.Close()
 		return nil, &verdict{"client-dial", err.Error()}
 	}
-	return &env{w, px, cl}, nil
+	return &env{w, px, cl, restore}, nil
 }
 
 func (e *env) close() {
+	defer e.restore()
 	e.cl.Close()
 	e.px.Stop(20 * time.Second)
 	e.w.Close()
@@ -266,6 +289,11 @@ func TestRandomCommands(t *testing.T) {
 	rapid.Check(t, func(t *rapid.T) {
 		c := cmdCase{Masters: rapid.IntRange(1, 3).Draw(t, "masters"), Replicas: rapid.IntRange(0, 2).Draw(t, "replicas"), Strategy: rapid.IntRange(0, 2).Draw(t, "strategy")}
 		n := rapid.IntRange(1, 25).Draw(t, "n")
+		if c.Masters >= 2 && c.Replicas >= 1 && rapid.IntRange(0, 2).Draw(t, "topo") == 0 {
+			for k, m := 0, rapid.IntRange(1, 2).Draw(t, "ntopo"); k < m; k++ {
+				c.Topo = append(c.Topo, topoOp{At: rapid.IntRange(0, n-1).Draw(t, "at"), Replica: rapid.IntRange(0, 5).Draw(t, "trep"), To: rapid.IntRange(0, 2).Draw(t, "tto")})
+			}
+		}
 		for i := 0; i < n; i++ {
 			var name string
 			switch rapid.IntRange(0, 9).Draw(t, "ncls") {
@@ -300,7 +328,7 @@ func TestRandomCommands(t *testing.T) {
 }
 
 func runCase(c cmdCase) (bool, *verdict) {
-	e, v := newEnv(c.Masters, c.Replicas, c.Strategy)
+	e, v := newEnvT(c.Masters, c.Replicas, c.Strategy, len(c.Topo) == 0)
 	if v != nil {
 		return false, v
 	}
@@ -309,7 +337,44 @@ func runCase(c cmdCase) (bool, *verdict) {
 	}
 	defer e.close()
 	nt := false
-	for _, args := range c.Cmds {
+	for i, args := range c.Cmds {
+		for _, op := range c.Topo {
+			if op.At != i {
+				continue
+			}
+			w := e.w
+			ms := w.Masters()
+			var reps []int
+			for _, m := range ms {
+				reps = append(reps, w.Replicas(m)...)
+			}
+			if len(reps) == 0 || len(ms) < 2 {
+				continue
+			}
+			sort.Ints(reps)
+			r := reps[op.Replica%len(reps)]
+			nm := ms[op.To%len(ms)]
+			w.Lock()
+			cur := w.Nodes[r].Master
+			if nm == cur {
+				nm = ms[(op.To+1)%len(ms)]
+			}
+			w.Nodes[r].Master = nm
+			w.Unlock()
+			// the proxy learns the new replica sets with its periodic refresh (50 ms here); two successes: the first may
+			// have been under way when the change happened
+			s0 := e.px.Counter("upstream.slots_refresh.success_total")
+			deadline := time.Now().Add(10 * time.Second)
+			for e.px.Counter("upstream.slots_refresh.success_total") < s0+2 {
+				if time.Now().After(deadline) {
+					return nt, nil // no refresh: not this property's business (C07)
+				}
+				time.Sleep(2 * time.Millisecond)
+			}
+			if c.Strategy > 0 {
+				nt = true
+			}
+		}
 		inf, v := e.checkOne(args, c.Strategy)
 		if v != nil {
 			return nt, v
